@@ -136,6 +136,12 @@ def random_term(rng, n, depth=1):
     return {"k": "inter", "args": [cls(c) for c in members]}
 
 
+def random_check(rng, n):
+    k = rng.randint(1, max(1, n - 1))
+    members = sorted(rng.sample(range(1, n + 1), k))
+    return {"k": "check", "members": members, "tag": "t" + str(rng.randint(0, 2))}
+
+
 def concrete(world):
     kinds = world.get("kinds")
     n = len(world["parents"])
@@ -176,7 +182,7 @@ def exhaustive_static(n_user, npos, max_methods, prios=(0, 1), bodies="next"):
                 yield w, list(all_calls(w, [npos]))
 
 
-def random_static_world(rng, n_user=None, max_methods=5, abstract=False, kinds_bodies=("next", "leaf", "fnext"), spare=False, unions=False):
+def random_static_world(rng, n_user=None, max_methods=5, abstract=False, kinds_bodies=("next", "leaf", "fnext"), spare=False, unions=False, checks=False):
     """One random world with mixed arities, optional positionals, typed
     keyword-only parameters, priorities and re-registered signatures."""
     n_user = n_user or rng.randint(2, 6)
@@ -209,6 +215,8 @@ def random_static_world(rng, n_user=None, max_methods=5, abstract=False, kinds_b
             types = [rng.randint(1, n) for _ in range(npos)]
             if unions:
                 types = [random_term(rng, n) if rng.random() < 0.5 else t for t in types]
+            if checks:
+                types = [random_check(rng, n) if rng.random() < 0.4 else t for t in types]
             reqpos = npos
             if npos >= 1 and rng.random() < 0.2:
                 reqpos = npos - 1
